@@ -217,6 +217,8 @@ class FieldCodeGenerator:
             expression = self._name
             if self._array_field:
                 expression = f'tuple({expression})'
+                if self._optional:
+                    expression = f'None if {self._name} is None else {expression}'
         elif isinstance(field_type, StringType):
             expression = f'"{self._hardcoded_value}"'
         else:
@@ -232,9 +234,10 @@ class FieldCodeGenerator:
         if self._length_string in self._context.length_field_is_referenced_map:
             self._context.length_field_is_referenced_map[self._length_string] = True
             length_field_data = self._context.accessible_fields[self._length_string]
-            self._data.init_body.add_line(
-                f'self._{length_field_data.name} = len(self._{self._name})'
-            )
+            length_expression = f'len(self._{self._name})'
+            if self._optional:
+                length_expression = f'0 if self._{self._name} is None else {length_expression}'
+            self._data.init_body.add_line(f'self._{length_field_data.name} = {length_expression}')
 
     def generate_serialize(self):
         self._generate_serialize_missing_optional_guard()
